@@ -23,10 +23,12 @@ def add_branch_helpers(u, props, canary=False):
     u.open_block('pub trait CodeReadHelper: ClassRead {')
     u.fn(R, 'CodeReadHelper::read_u8_as_local_variable', container=TR, ret='res', **kw,
          ensures=[C('C01.lv.u8', f'res matches Ok(l) ==> l.index as int == {D0}[{P0}] as int && final(self).pos() == {P0} + 1'),
-                  C('C01.lv.u8.ok-iff', f'res.is_ok() <==> (0 <= {P0} && {P0} + 1 <= {D0}.len())')])
+                  C('C01.lv.u8.ok-iff', f'res.is_ok() <==> (0 <= {P0} && {P0} + 1 <= {D0}.len())'),
+                  C('C01.lv.u8.frame', f'final(self).data() == {D0}')])
     u.fn(R, 'CodeReadHelper::read_u16_as_local_variable', container=TR, ret='res', **kw,
          ensures=[C('C01.lv.u16', f'res matches Ok(l) ==> l.index as int == val16({D0}.subrange({P0}, {P0} + 2)) && final(self).pos() == {P0} + 2'),
-                  C('C01.lv.u16.ok-iff', f'res.is_ok() <==> (0 <= {P0} && {P0} + 2 <= {D0}.len())')])
+                  C('C01.lv.u16.ok-iff', f'res.is_ok() <==> (0 <= {P0} && {P0} + 2 <= {D0}.len())'),
+                  C('C01.lv.u16.frame', f'final(self).data() == {D0}')])
     br16 = f'sval16({D0}.subrange({P0}, {P0} + 2))'
     br32 = f'sval32({D0}.subrange({P0}, {P0} + 4))'
     u.fn(R, 'CodeReadHelper::read_i16_as_branch_target_label', container=TR, ret='res', **kw,
